@@ -240,17 +240,44 @@ def check_refused_edit(case, ctx):
     dg0 = digest(o)
     how = rng.choice(['ragged-ctrlpts', 'ragged-set_ctrlpts', 'missing-sizes', 'small-ctrlpts2d', 'ragged-ctrlptsw',
                       'remove-clamping-knot', 'list-setter-degree', 'list-setter-knotvector'])
-    if pdim == 1 and G.degrees_of(o)[0] >= 2 and rng.random() < 0.4:
+    if rng.random() < (0.4 if pdim == 1 else 0.2):
         how = 'remove-clamping-knot'
     refused = False
     try:
         if how == 'remove-clamping-knot':
             # (sixth hunt) a removal the library cannot carry out: two copies of the clamping start (or end) knot of a curve
             from geomdl import operations as ops_
-            if pdim != 1 or G.degrees_of(o)[0] < 2:
+            d_ = rng.randrange(pdim)
+            if G.degrees_of(o)[d_] < 2:
                 raise Reject()
-            kv_ = G.kvs_of(o)[0]
-            ops_.remove_knot(o, [rng.choice([kv_[0], kv_[-1]])], [2])
+            kv_ = G.kvs_of(o)[d_]
+            prm_, num_ = [None] * pdim, [0] * pdim
+            prm_[d_], num_[d_] = rng.choice([kv_[0], kv_[-1]]), 2
+            S_before = G.defn_of(o)
+            ops_.remove_knot(o, prm_, num_)
+            # (seventh hunt) ... of a surface or a volume: if the library does NOT refuse, the shape it leaves must at least be a shape
+            ok_ = all(len(kv2_) == n2_ + p2_ + 1 for kv2_, n2_, p2_ in zip(G.kvs_of(o), G.sizes_of(o), G.degrees_of(o)))
+            ctx.tag('refused-edit:remove-clamping-knot', 'refused-edit:remove-clamping-knot:accepted')
+            ctx.check(ok_, 'refused-edit/state-changed', 'remove_knot of two copies of a clamping knot of a %s (direction %d) was accepted and left '
+                      'sizes %r on knot vectors of lengths %r (degrees %r): not a valid shape' % (type(o).__name__, d_, G.sizes_of(o),
+                                                                                                  [len(k_) for k_ in G.kvs_of(o)], G.degrees_of(o)),
+                      what='fresh-equal')
+            if ok_:
+                # ... and the shape it was before, wherever both are defined
+                doms_ = [(max(a_[0], b_[0]), min(a_[1], b_[1])) for a_, b_ in zip(G.domains_of(o), [tuple(map(float, x_)) for x_ in S_before.domain()])]
+                sc_ = so.scale_of_defn(S_before)
+                worst_ = 0.0
+                for _k in range(6):
+                    q_ = [lo_ + rng.uniform(0.2, 0.8) * (hi_ - lo_) for lo_, hi_ in doms_]
+                    try:
+                        got_ = G.evaluate_single(o, q_)
+                    except Exception:
+                        worst_ = float('inf')
+                        break
+                    worst_ = max(worst_, max(abs(a_ - float(b_)) for a_, b_ in zip(got_, S_before.point(q_))))
+                ctx.check(worst_ <= 1e-9 * sc_, 'refused-edit/state-changed', 'remove_knot of two copies of a clamping knot of a %s (direction %d) was '
+                          'accepted: the shape moved by %r (a curve refuses this request)' % (type(o).__name__, d_, worst_), what='fresh-equal')
+            return
         elif how == 'list-setter-degree':
             # (sixth hunt) the list form of the degree setter with a valid first and an invalid later entry
             if pdim == 1:
